@@ -1,7 +1,7 @@
 // sysgate: ptrace supervisor for system-call-boundary fault injection (x86_64 Linux).
 //
 //   sysgate [--watch <path-prefix>]... [--from-marker] [--log-exec]
-//           (--count | --kill-at K [--tear P] | --pause-at K) --log F -- cmd...
+//           (--count | --kill-at K [--tear P] | --pause-at K | --fail-at K [--errno E]) --log F -- cmd...
 //
 // Watched system calls of the ROOT process (all its threads) whose path argument or
 // file descriptor refers to a path under a --watch prefix are numbered 1..N in the
@@ -9,7 +9,8 @@
 // spawned) BEFORE call K executes; with --tear P and call K a write of length L, the
 // write is shortened to floor(P*L) bytes (1 <= . < L), allowed to complete, then the
 // process is killed.  --pause-at K: print "PAUSED K ..." on stdout before call K and
-// freeze the process until a byte arrives on stdin.  --from-marker: numbering starts
+// freeze the process until a byte arrives on stdin.  --fail-at K [--errno E]: call K is not
+// executed and returns -E (default EIO) to the process, which then runs on.  --from-marker: numbering starts
 // when the process tries to open /verif-marker-begin.  --log-exec: every execve of a
 // descendant process is logged as "EXEC <pid> <path>" (not numbered).  An attempt of the
 // root process to open /verif-mark/<label> is logged as "MARK <label>" (phase labels).
@@ -37,7 +38,8 @@
 
 static const char *watch[MAXW];
 static int nwatch;
-static long kill_at = -1, pause_at = -1;
+static long kill_at = -1, pause_at = -1, fail_at = -1;
+static int fail_errno = 5;
 static int from_marker, armed = 1, log_exec, killed;
 static pid_t others[MAXT]; static int nothers;
 static double tear = -1;
@@ -50,6 +52,7 @@ struct th {
     int pending_open; // openat in flight with watched path
     char path[512];
     int tearkill;
+    int failwith; // errno to return from the system call in flight (it was replaced by an invalid one)
 };
 static struct th ths[MAXT];
 static char fdpath[MAXFD][256]; // root process fd -> watched path ("" if not)
@@ -134,6 +137,14 @@ static void event(struct th *t, const char *name, const char *path, long len, st
         fflush(logf_);
         killall();
     }
+    if (counter == fail_at) {
+        // make this call fail: replace it by an invalid system call and patch the result at exit
+        fprintf(logf_, "FAIL %ld errno=%d\n", counter, fail_errno);
+        fflush(logf_);
+        regs->orig_rax = -1;
+        ptrace(PTRACE_SETREGS, t->tid, 0, regs);
+        t->failwith = fail_errno;
+    }
     if (counter == pause_at) {
         printf("PAUSED %ld %s %s\n", counter, name, path);
         fflush(stdout);
@@ -151,6 +162,8 @@ int main(int argc, char **argv) {
         else if (!strcmp(argv[i], "--kill-at")) kill_at = atol(argv[++i]);
         else if (!strcmp(argv[i], "--pause-at")) pause_at = atol(argv[++i]);
         else if (!strcmp(argv[i], "--tear")) tear = atof(argv[++i]);
+        else if (!strcmp(argv[i], "--fail-at")) fail_at = atol(argv[++i]);
+        else if (!strcmp(argv[i], "--errno")) fail_errno = atoi(argv[++i]);
         else if (!strcmp(argv[i], "--log")) logname = argv[++i];
         else if (!strcmp(argv[i], "--count")) { }
         else if (!strcmp(argv[i], "--from-marker")) { from_marker = 1; armed = 0; }
@@ -261,6 +274,10 @@ int main(int argc, char **argv) {
                         }
                         break;
                     }
+                    case SYS_accept:
+                    case SYS_accept4:
+                        if (r.rdi < MAXFD && fdpath[r.rdi][0]) event(t, "accept", fdpath[r.rdi], 0, &r);
+                        break;
                     case SYS_listen:
                         if (r.rdi < MAXFD && fdpath[r.rdi][0]) event(t, "listen", fdpath[r.rdi], 0, &r);
                         break;
@@ -280,6 +297,12 @@ int main(int argc, char **argv) {
                 }
             } else {
                 t->insys = 0;
+                if (t->failwith) {
+                    r.rax = -(long)t->failwith;
+                    ptrace(PTRACE_SETREGS, tid, 0, &r);
+                    t->failwith = 0;
+                    t->pending_open = 0;
+                }
                 if (t->tearkill) {
                     fprintf(logf_, "KILL after torn write ret=%lld\n", (long long)r.rax);
                     fflush(logf_);
